@@ -136,12 +136,20 @@ func registerHarnessIntrinsics() {
 		return in.input(term.F32, a[0].(string))
 	})
 	// finite: no NaN, no infinities
+	bounded := func(in *Interp, v *term.Term, lo, hi float64) {
+		if in.job.Bounded && !v.IsConst() && in.job.Mode != "real" {
+			a := term.Fabs(v)
+			in.addPC(term.Or(term.Feq(v, term.FloatC(v.Sort, 0)),
+				term.And(term.Fle(term.FloatC(v.Sort, lo), a), term.Fle(a, term.FloatC(v.Sort, hi)))))
+		}
+	}
 	reg("VerifFinite64", func(in *Interp, fn *ssa.Function, a []Value) Value {
 		v := in.input(term.F64, a[0].(string))
 		if !v.IsConst() && in.job.Mode != "real" {
 			in.addPC(term.Not(term.FisNaN(v)))
 			in.addPC(term.Not(term.FisInf(v, 0)))
 		}
+		bounded(in, v, math.Ldexp(1, -100), math.Ldexp(1, 100))
 		return v
 	})
 	reg("VerifFinite32", func(in *Interp, fn *ssa.Function, a []Value) Value {
@@ -150,6 +158,7 @@ func registerHarnessIntrinsics() {
 			in.addPC(term.Not(term.FisNaN(v)))
 			in.addPC(term.Not(term.FisInf(v, 0)))
 		}
+		bounded(in, v, math.Ldexp(1, -30), math.Ldexp(1, 30))
 		return v
 	})
 	reg("VerifInt", func(in *Interp, fn *ssa.Function, a []Value) Value {
